@@ -531,7 +531,8 @@ inductive Applicable (cfg : Cfg) (a : Schema) : Mutation → Prop
   | dropUnique (t0 : Table) (u0 : Uq) : t0 ∈ a → u0 ∈ t0.uqs → Applicable cfg a (.dropUnique t0.name u0.name)
   | changeUnique (t0 : Table) (u0 : Uq) (cols : List String) : t0 ∈ a → u0 ∈ t0.uqs →
       uqSig u0 ≠ uqSig { u0 with cols := cols } → Applicable cfg a (.changeUnique t0.name u0.name cols)
-  | addFk (t0 : Table) (f : Fk) : t0 ∈ a → fkSig t0.name f ∉ t0.fks.map (fkSig t0.name) → Applicable cfg a (.addFk t0.name f)
+  | addFk (t0 : Table) (f : Fk) : t0 ∈ a →
+      (f.cols, f.reftable, f.refcols) ∉ t0.fks.map (fun g => (g.cols, g.reftable, g.refcols)) → Applicable cfg a (.addFk t0.name f)
   | dropFk (t0 : Table) (f0 : Fk) : t0 ∈ a → f0 ∈ t0.fks → (t0.fks.map (·.name)).Nodup → Applicable cfg a (.dropFk t0.name f0.name)
 
 /-- full-strength statement: every well-formed base schema, no restriction on its defaults / types -/
@@ -560,7 +561,15 @@ theorem detect_partial (cfg : Cfg) (a : Schema) (hwf : WF a) (hok : SchemaOk cfg
   | addUnique t0 u h1 h2 => exact detect_addUnique cfg a hwf hok t0 h1 u h2
   | dropUnique t0 u0 h1 h2 => exact detect_dropUnique cfg a hwf hok t0 h1 u0 h2
   | changeUnique t0 u0 cols h1 h2 h3 => exact detect_changeUnique cfg a hwf hok t0 h1 u0 h2 cols h3
-  | addFk t0 f h1 h2 => exact detect_addFk cfg a hwf hok t0 h1 f h2
+  | addFk t0 f h1 h2 =>
+    refine detect_addFk cfg a hwf hok t0 h1 f ?_
+    intro hm
+    obtain ⟨g, hg, hgs⟩ := List.mem_map.mp hm
+    apply h2
+    apply List.mem_map.mpr
+    refine ⟨g, hg, ?_⟩
+    simp only [fkSig, Prod.mk.injEq] at hgs
+    simp [hgs.2.1, hgs.2.2.1, hgs.2.2.2.1]
   | dropFk t0 f0 h1 h2 h3 => exact detect_dropFk cfg a hwf hok t0 h1 f0 h2 h3
 
 /-- non-vacuity: the base schema of the examples is in the class and a flip is applicable -/
@@ -612,5 +621,124 @@ theorem detect_counterexample : ¬ detect_statement := by
   rw [witness_diff] at this
   revert this
   decide
+
+end C07
+
+/-! ### 'the default changed' in value terms -/
+namespace C07
+open Model.Diff Spec.Diff Lemmas.Diff
+
+/-- no double-quote character -/
+def noDq (s : List Char) : Bool := !s.contains '"'
+
+theorem dropDq_of_noDq (x : List Char) (h : noDq x = true) : dropDq x = x := by
+  have hm : '"' ∉ x := by simpa [noDq] using h
+  unfold dropDq
+  have h1 : dropLeadDq x = x := by
+    unfold dropLeadDq
+    split
+    · rename_i r
+      exact absurd (List.mem_cons_self) hm
+    · rfl
+  rw [h1]
+  unfold dropTrailDq
+  split
+  · rename_i hl
+    have : x.getLast? = some '"' := by simpa using hl
+    exact absurd (List.mem_of_getLast? this) hm
+  · rfl
+
+/-- on texts without `"` and newline, the quote-stripping regex is plain SQL unquoting -/
+theorem stripQuotes_eq_unquote (x : List Char) (hn : noNl x = true) (hd : noDq x = true) :
+    stripQuotes x = unquote x := by
+  unfold stripQuotes
+  rw [core_of_noNl x hn, dropDq_of_noDq x hd, tailNl_of_noNl x hn]
+  cases x with
+  | nil => rfl
+  | cons a r =>
+    by_cases ha : a = '\''
+    · subst ha
+      simp only [wrapped, unquote, beq_self_eq_true, Bool.true_and]
+      by_cases hl : r.getLast? = some '\''
+      · have hr := eq_dropLast_concat r '\'' hl
+        have hnm : noNl r.dropLast = true := by
+          rw [hr] at hn
+          exact noNl_of_append _ _ _ hn
+        by_cases he : r.dropLast = []
+        · have hlen : r.length = 1 := by rw [hr, he]; rfl
+          simp [hl, he, hlen]
+        · have hlen : r.length ≥ 2 := by
+            rw [hr]
+            cases hd' : r.dropLast with
+            | nil => exact absurd hd' he
+            | cons b t => simp
+          simp [hl, he, hnm, hlen]
+      · simp [hl]
+    · simp [wrapped, unquote, ha]
+
+end C07
+
+namespace C07
+open Model.Diff Spec.Diff Lemmas.Diff
+
+theorem wrapped_none_of_parenInner_none (e : List Char) (h : parenInner e = none) : wrapped '(' ')' e = none := by
+  cases e with
+  | nil => rfl
+  | cons a r =>
+    by_cases ha : a = '('
+    · subst ha
+      simp only [parenInner] at h
+      by_cases hl : r.getLast? = some ')'
+      · simp [hl] at h
+      · simp [wrapped, hl]
+    · simp [wrapped, ha]
+
+theorem noDq_of_append (a : Char) (m : List Char) (b : Char) (h : noDq (a :: (m ++ [b])) = true) : noDq m = true := by
+  simp [noDq] at h ⊢
+  intro hm
+  exact h.2.1 hm
+
+/-- "the default changed" in value terms: the normal form the comparison uses is the value of
+the default (string value / SQL-unquoted stored expression) for plain defaults without `"` -/
+theorem norm_eq_value (d : Option Dflt) (hp : dfltPlain d = true)
+    (hq : ∀ e, d = some (.expr e) → noDq e = true) :
+    d.map (fun x => normDefault (renderMeta x)) = defaultValue d := by
+  cases d with
+  | none => rfl
+  | some x =>
+    cases x with
+    | str v => simp [defaultValue, renderMeta, normDefault_plain v hp]
+    | expr e =>
+      have hd := hq e rfl
+      simp only [dfltPlain, exprPlain, Bool.and_eq_true, Bool.not_eq_true', List.isEmpty_eq_false_iff, beq_iff_eq] at hp
+      obtain ⟨⟨⟨hne, hn⟩, htrim⟩, hshape⟩ := hp
+      simp only [Option.map_some, defaultValue, renderMeta, Option.some.injEq, sqliteStore, htrim, normDefault]
+      cases hpi : parenInner e with
+      | some m =>
+        rw [hpi] at hshape
+        simp only [Bool.and_eq_true, Bool.not_eq_true', List.isEmpty_eq_false_iff, beq_iff_eq,
+          Option.isNone_iff_eq_none] at hshape
+        obtain ⟨⟨hmne, hmtrim⟩, _⟩ := hshape
+        have he := parenInner_some e m hpi
+        have hnm : noNl m = true := by rw [he] at hn; exact noNl_of_append _ _ _ hn
+        have hdm : noDq m = true := by rw [he] at hd; exact noDq_of_append _ _ _ hd
+        simp only [hmtrim]
+        rw [he, stripParens_paren _ hmne hnm]
+        exact stripQuotes_eq_unquote m hnm hdm
+      | none =>
+        simp only []
+        rw [stripParens_of_none _ (by rw [core_of_noNl _ hn]; exact wrapped_none_of_parenInner_none e hpi)]
+        exact stripQuotes_eq_unquote e hn hd
+
+/-- a default whose *value* changed is a changed default -/
+theorem changed_of_value (old new : Option Dflt) (hpo : dfltPlain old = true) (hpn : dfltPlain new = true)
+    (hqo : ∀ e, old = some (.expr e) → noDq e = true) (hqn : ∀ e, new = some (.expr e) → noDq e = true)
+    (h : defaultValue old ≠ defaultValue new) : changedDefault old new := by
+  unfold changedDefault
+  rw [norm_eq_value old hpo hqo, norm_eq_value new hpn hqn]
+  exact h
+
+example : defaultValue (some (.expr ['(', '1', ')'])) = some ['1'] := by decide
+example : defaultValue (some (.expr ['\'', 'a', '\''])) = defaultValue (some (.str ['a'])) := by decide
 
 end C07
